@@ -12,7 +12,7 @@
    about SHA-256 or JSON. *)
 From Coq Require Import List NArith Bool Permutation.
 Import ListNotations.
-From Oras Require Import Base.Prelude Generated.GC07 Model.GraphMem Model.GraphStore Model.IndexLTS Model.StoreLTS Model.IndexAllLTS Model.Links Proofs.GraphMem Proofs.StoreLTS Proofs.IndexAllLTS Proofs.Links Proofs.GraphStore Proofs.IndexLTS.
+From Oras Require Import Base.Prelude Generated.GC07 Model.GraphMem Model.GraphStore Model.IndexLTS Model.StoreLTS Model.IndexAllLTS Model.GraphMemSrc Model.Links Proofs.GraphMem Proofs.StoreLTS Proofs.IndexAllLTS Proofs.Links Proofs.GraphStore Proofs.IndexLTS.
 
 (* The invariants written in the comments of graph.Memory hold after every history of
    Index / Remove / IndexAll / fresh-graph operations, with content appearing in and
@@ -22,6 +22,13 @@ Theorem C07_inv :
     Inv (ctab ct) (s_g (fst (run ct fuel init_state ops))).
 Proof. exact history_inv. Qed.
 Print Assumptions C07_inv.
+
+(* the statement order of graph.Memory.index / Remove / Predecessors that Model/GraphMem.v
+   mirrors (Successors before the lock, the whole update under the lock, entry deleted when it
+   becomes empty, ...) is the one in internal/graph/memory.go as re-read on this run *)
+Theorem C07_graphmem_source_shape_src : graphmem_source_shape = true.
+Proof. exact graphmem_source_shape_true. Qed.
+Print Assumptions C07_graphmem_source_shape_src.
 
 (* Under the invariant, Predecessors(n) is exactly -- no omission, no extra, no
    duplicate -- the set of nodes in the memory whose successors contain n, whether or
@@ -116,6 +123,22 @@ Theorem C07_remove_order_irrelevant :
     Permutation (snd (remove_ord g n o1)) (snd (remove_ord g n o2)).
 Proof. exact remove_order_irrelevant. Qed.
 Print Assumptions C07_remove_order_irrelevant.
+
+(* ... and over whole histories: attach to EVERY Remove of a history an arbitrary iteration
+   order of Go's map (any duplicate-free list with the members of the successor set).  The
+   invariant holds, the final node set and every Predecessors answer are those of the model's
+   own order, and every output along the way (danglings, query answers) is the same up to the
+   order inside the set.  (The history-level form of C07_remove_order_irrelevant.) *)
+Theorem C07_history_any_map_order :
+  forall (ct : amap) (fuel : nat) (ops : list (op * list node)),
+    let r1 := run_orders ct fuel init_state ops in
+    let r2 := run ct fuel init_state (map fst ops) in
+    Inv (ctab ct) (s_g (fst r1)) /\
+    (forall x, In x (g_nodes (s_g (fst r1))) <-> In x (g_nodes (s_g (fst r2)))) /\
+    (forall n, Permutation (predecessors (s_g (fst r1)) n) (predecessors (s_g (fst r2)) n)) /\
+    Forall2 out_equiv (snd r1) (snd r2).
+Proof. exact history_any_map_order. Qed.
+Print Assumptions C07_history_any_map_order.
 
 (* loadIndex (reopen from a directory, an fs.FS, a tar archive) and gcIndex build a
    fresh graph by IndexAll over a root list.  The result holds exactly the nodes
@@ -333,6 +356,15 @@ Theorem C07_store_autosave_exact :
                 In p (o_blobs (a_s (fst r))) /\ In n (content p).
 Proof. exact autosave_history_exact. Qed.
 Print Assumptions C07_store_autosave_exact.
+
+(* [arun]'s operation language includes the Push of a manifest whose bytes do not decode
+   (ABadPush: storage.Push, graph.Index fails, the blob is removed again): C07_store_autosave_exact
+   and C07_store_refines_spec cover histories containing it; it leaves no trace: *)
+Example C07_store_bad_push_example :
+  let ops1 := [AOp (PPush 0%N); AOp (PPush 2%N); ABadPush 9%N; AOp (PPush 3%N); AOp PReopen] in
+  let ops2 := [AOp (PPush 0%N); AOp (PPush 2%N); AOp (PPush 3%N); AOp PReopen] in
+  arun (ctab pf_ct) pf_isman 50 empty_astore ops1 = arun (ctab pf_ct) pf_isman 50 empty_astore ops2.
+Proof. exact bad_push_example. Qed.
 
 (* the side condition is needed (and is the documented duty of the caller): AutoSaveIndex off,
    push, reopen without SaveIndex: the pushed manifest is on disk and not indexed *)
@@ -568,6 +600,17 @@ Definition ex_ct : amap := [(2, [0;1;1]); (3, [2]); (4, [2;1])]%N.
 Definition ex_ops : list op :=
   [OSok 0 true; OSok 1 true; OSok 2 true; OSok 3 true; OSok 4 true;
    OIndex 3; OIndex 4; OIndex 2; OIndex 1; OIndex 0; ORemove 3; OQuery 2; OQuery 1]%N.
+
+(* an order other than the model's is really taken: the danglings come out reversed *)
+Example C07_map_order_example :
+  snd (run_orders ex_ct 100 init_state
+         [(OSok 0 true, []); (OSok 1 true, []); (OSok 2 true, []);
+          (OIndex 0, []); (OIndex 1, []); (OIndex 2, []); (ORemove 2, [0; 1])]%N) =
+    [RNone; RNone; RNone; ROk; ROk; ROk; RDang [0; 1]%N] /\
+  snd (run ex_ct 100 init_state
+         [OSok 0 true; OSok 1 true; OSok 2 true; OIndex 0; OIndex 1; OIndex 2; ORemove 2]%N) =
+    [RNone; RNone; RNone; ROk; ROk; ROk; RDang [1; 0]%N].
+Proof. vm_compute. split; reflexivity. Qed.
 
 Example C07_example_history :
   snd (run ex_ct 100 init_state ex_ops) =
